@@ -56,7 +56,9 @@ def run_batch(ctx, ntasks, store, fine, faults, real_joblib=False):
     reset_ids()
     constrained = faults == "constrained"
     extlock = (6, 0) if faults == "extlock" else None
-    if constrained or extlock:
+    unregistered = faults == "unregistered"      # the batch is handed to evaluate() without being recorded in problem.individuals
+    mixedcls = faults == "mixedcls"              # designs carried by the different individual classes of the framework
+    if constrained or extlock or unregistered or mixedcls:
         faults = False
     key = ("p", constrained)
     env = Env.cache.get(key)
@@ -110,9 +112,14 @@ def run_batch(ctx, ntasks, store, fine, faults, real_joblib=False):
         problem.data_store = SqliteDataStore(problem, database_name=db, thread_safe=True)
     else:
         problem.data_store = DummyDataStore()
-    batch = [Individual([float(k + 1)]) for k in range(ntasks)]
-    for ind in batch:
-        problem.individuals.append(ind)
+    if mixedcls:
+        from .c20 import make_as, CLASSES
+        batch = [make_as(CLASSES[k % 4], [float(k + 1)]) for k in range(ntasks)]
+    else:
+        batch = [Individual([float(k + 1)]) for k in range(ntasks)]
+    if not unregistered:
+        for ind in batch:
+            problem.individuals.append(ind)
     exc = None
     info = {}
     if real_joblib:
@@ -150,7 +157,7 @@ def judge(problem, batch, exc, rows, info, store, faults, desc):
     from artap.individual import Individual
     out = []
     constrained = faults == "constrained"
-    if constrained or faults == "extlock":
+    if constrained or faults in ("extlock", "unregistered", "mixedcls"):
         faults = False
 
     def bad(key, msg):
@@ -313,7 +320,9 @@ def run(tier, seed):
                   ("free", 0, False, 2), ("free", 1, True, 2), ("free", 2, True, 50), ("free", 3, True, 50), ("free", 3, False, 50), ("free", 7, True, 20),
                   ("explore", 9, True, False, False, 1), ("explore", 9, False, False, False, 2), ("explore", 17, False, False, False, 1),
                   ("explore", 33, True, False, False, 0), ("explore", 65, False, False, False, 0), ("explore", 129, True, False, False, 0),
-                  ("free", 33, True, 5), ("free", 65, False, 5), ("free", 257, True, 2), ("free", 1025, False, 1)]
+                  ("free", 33, True, 5), ("free", 65, False, 5), ("free", 257, True, 2), ("free", 1025, False, 1),
+                  ("explore", 2, True, False, "unregistered", 3), ("explore", 33, True, False, "unregistered", 0), ("explore", 129, True, False, "unregistered", 0),
+                  ("explore", 3, True, False, "mixedcls", 2), ("explore", 9, True, False, "mixedcls", 1)]
     else:
         shards = [("explore", 2, False, False, False, None), ("explore", 2, True, False, False, 3),
                   ("explore", 3, False, False, False, 3), ("explore", 3, True, False, False, 2),
@@ -325,7 +334,9 @@ def run(tier, seed):
                   # batches far larger than the explored ones: default schedule, 9 tasks also with one pre-emption
                   ("explore", 9, True, False, False, 0), ("explore", 9, False, False, False, 1), ("explore", 17, False, False, False, 0),
                   ("explore", 33, True, False, False, 0), ("explore", 65, False, False, False, 0), ("explore", 129, False, False, False, 0),
-                  ("free", 33, True, 3), ("free", 65, False, 3), ("free", 257, False, 1)]
+                  ("free", 33, True, 3), ("free", 65, False, 3), ("free", 257, False, 1),
+                  ("explore", 2, True, False, "unregistered", 1), ("explore", 33, True, False, "unregistered", 0), ("explore", 65, True, False, "unregistered", 0),
+                  ("explore", 3, True, False, "mixedcls", 1), ("explore", 9, True, False, "mixedcls", 0)]
     split = []
     for sh in shards:
         if sh[0] == "explore":
